@@ -34,6 +34,8 @@ pub(crate) struct RawOp<M: ?Sized> {
     // The cancelled flag indicates the op has been cancelled.
     cancelled: bool,
     result: PushEntry<Option<Waker>, io::Result<usize>>,
+    #[cfg(compio_verif)]
+    verif: crate::verif::OpGuard,
     pub(crate) carrier: M,
 }
 
@@ -44,6 +46,11 @@ impl<C: ?Sized> RawOp<C> {
 
     pub fn extra_mut(&mut self) -> &mut Extra {
         &mut self.extra
+    }
+
+    #[cfg(compio_verif)]
+    pub(crate) fn verif_id(&self) -> u64 {
+        self.verif.id()
     }
 
     #[cfg(io_uring)]
@@ -213,6 +220,8 @@ impl ErasedKey {
             extra,
             cancelled: false,
             result: PushEntry::Pending(None),
+            #[cfg(compio_verif)]
+            verif: crate::verif::OpGuard::new(),
             carrier: Carrier::new(op, driver_ty),
         };
         let mut inner = ThinCell::new(raw_op);
@@ -295,6 +304,11 @@ impl ErasedKey {
     /// Whether the op is completed.
     pub(crate) fn has_result(&self) -> bool {
         self.borrow().result.is_ready()
+    }
+
+    #[cfg(compio_verif)]
+    pub(crate) fn verif_id(&self) -> u64 {
+        self.borrow().verif.id()
     }
 
     /// Whether the key is uniquely owned.
